@@ -36,6 +36,23 @@ var anchored = []string{
 	"metadata/bytesize_decoder.go", "config/decode.go", "config/normalize.go", "utils/pem.go", "streams/uppercase_transformer.go",
 }
 
+// reachable: files outside the property's anchored list whose functions the anchored entry points call
+// with their input (helpers of crypto/crypto.go: getSHAHash slices the algorithm name).
+var reachable = []string{"crypto/crypto.go"}
+
+// internalPartial: dapr/kit functions that panic on part of their domain; a call to one is a site. The set
+// is closed below (closePartial): a function that hands its own parameter to a partial function without
+// a `switch <parameter>` case guard is partial too.
+type partialInfo struct {
+	idx int // index of the argument the function is partial in
+	why string
+}
+
+var internalPartial = map[string]partialInfo{
+	"github.com/dapr/kit/crypto.getSHAHash":      {0, "panics (slice bounds) if len(alg) < 3: alg[len(alg)-3:]"},
+	"github.com/dapr/kit/crypto.expectedKeySize": {0, "panics (slice bounds) if len(alg) < 4: alg[1:4]"},
+}
+
 // panicContracts: callee (types.Func.FullName) -> the contract that makes the call a panic site.
 var panicContracts = map[string]string{
 	"crypto/cipher.NewCBCDecrypter":         "panics if len(iv) != block size",
@@ -506,6 +523,11 @@ func (w *walker) Visit(n ast.Node) ast.Visitor {
 		switch f := e.Fun.(type) {
 		case *ast.Ident:
 			if obj, ok := w.info.Uses[f]; ok {
+				if fn, isFn := obj.(*types.Func); isFn {
+					if c, partial := internalPartial[fn.FullName()]; partial {
+						w.emit("call", e, "internal: "+fn.FullName()+" "+c.why)
+					}
+				}
 				if _, builtin := obj.(*types.Builtin); builtin {
 					switch f.Name {
 					case "panic":
@@ -712,6 +734,79 @@ func packageFacts(dir string, pkg *types.Package, files []*ast.File, info *types
 	return out
 }
 
+// closePartial propagates partiality: f(…, p, …) { … g(p) … } with g partial and no enclosing
+// `switch p { case … }` around the call makes f partial in the same way.
+func closePartial(files []*ast.File, info *types.Info) {
+	for changed := true; changed; {
+		changed = false
+		for _, f := range files {
+			for _, decl := range f.Decls {
+				fd, ok := decl.(*ast.FuncDecl)
+				if !ok || fd.Body == nil || fd.Recv != nil {
+					continue
+				}
+				fobj, ok := info.Defs[fd.Name].(*types.Func)
+				if !ok {
+					continue
+				}
+				if _, already := internalPartial[fobj.FullName()]; already {
+					continue
+				}
+				params := map[string]int{}
+				pi := 0
+				for _, fl := range fd.Type.Params.List {
+					for _, n := range fl.Names {
+						params[n.Name] = pi
+						pi++
+					}
+				}
+				var stack []ast.Node
+				ast.Inspect(fd.Body, func(n ast.Node) bool {
+					if n == nil {
+						stack = stack[:len(stack)-1]
+						return true
+					}
+					stack = append(stack, n)
+					call, isCall := n.(*ast.CallExpr)
+					if !isCall {
+						return true
+					}
+					id, isID := call.Fun.(*ast.Ident)
+					if !isID {
+						return true
+					}
+					g, isFn := info.Uses[id].(*types.Func)
+					if !isFn {
+						return true
+					}
+					c, partial := internalPartial[g.FullName()]
+					if !partial || c.idx >= len(call.Args) {
+						return true
+					}
+					an, isName := call.Args[c.idx].(*ast.Ident)
+					if !isName {
+						return true
+					}
+					idx, isParam := params[an.Name]
+					if !isParam {
+						return true
+					}
+					for _, anc := range stack {
+						if sw, isSw := anc.(*ast.SwitchStmt); isSw {
+							if tag, isTag := sw.Tag.(*ast.Ident); isTag && tag.Name == an.Name {
+								return true // the call sits in a case clause of a switch on that parameter
+							}
+						}
+					}
+					internalPartial[fobj.FullName()] = partialInfo{idx, "calls " + g.Name() + " with its parameter " + an.Name + " outside a switch on it (" + c.why + ")"}
+					changed = true
+					return true
+				})
+			}
+		}
+	}
+}
+
 func fail(format string, a ...any) {
 	fmt.Fprintf(os.Stderr, "factgen_c07: unknown shape: "+format+"\n", a...)
 	os.Exit(1)
@@ -774,7 +869,7 @@ func main() {
 
 	byDir := map[string][]string{}
 	dirs := []string{}
-	for _, f := range anchored {
+	for _, f := range append(append([]string{}, anchored...), reachable...) {
 		d := filepath.Dir(f)
 		if _, ok := byDir[d]; !ok {
 			dirs = append(dirs, d)
@@ -838,6 +933,7 @@ func main() {
 		if pkg != nil {
 			facts = append(facts, packageFacts(d, pkg, files, info, fset)...)
 		}
+		closePartial(files, info)
 		pkgLits := map[*types.Var]int{}
 		for _, f := range files {
 			for _, decl := range f.Decls {
@@ -982,7 +1078,26 @@ func main() {
 	for i, f := range files {
 		fl[i] = leanStr(f)
 	}
-	fmt.Fprintf(&b, "def anchoredFiles : List String := [%s]\n\nend Kit.Generated.C07\n", strings.Join(fl, ", "))
+	fmt.Fprintf(&b, "def anchoredFiles : List String := [%s]\n\n", strings.Join(fl, ", "))
+	rl := make([]string, len(reachable))
+	for i, f := range reachable {
+		rl[i] = leanStr(f)
+	}
+	fmt.Fprintf(&b, "/-- files outside the anchored list that are inventoried because the anchored entry points call into them -/\ndef reachableFiles : List String := [%s]\n\n", strings.Join(rl, ", "))
+	pn := make([]string, 0, len(internalPartial))
+	for n := range internalPartial {
+		pn = append(pn, n)
+	}
+	sort.Strings(pn)
+	b.WriteString("/-- dapr/kit functions that panic on part of their domain (every call to one is a site) -/\ndef partialFunctions : List (String × String) := [\n")
+	for i, n := range pn {
+		sep := ","
+		if i == len(pn)-1 {
+			sep = ""
+		}
+		fmt.Fprintf(&b, "  (%s, %s)%s\n", leanStr(n), leanStr(internalPartial[n].why), sep)
+	}
+	b.WriteString("]\n\nend Kit.Generated.C07\n")
 	if *out == "" {
 		os.Stdout.WriteString(b.String())
 	} else if err := os.WriteFile(*out, []byte(b.String()), 0o644); err != nil {
